@@ -20,6 +20,11 @@ class Writer:
         return ''.join(self.parts)
 
 
+def equals(rng):
+    "the `=` between an attribute's name and its value may have white space on either side"
+    return '=' if rng.random() < 0.85 else rng.choice([' = ', ' =', '= ', '\n=\n', '\t=', '=  '])
+
+
 def gen_attrs(rng, w, rich=True):
     attrs = []
     for _ in range(rng.choice([0, 0, 1, 1, 2, 3] * 5 + [6, 9, 14])):
@@ -45,7 +50,7 @@ def gen_attrs(rng, w, rich=True):
         vs = ve = None
         inner = None        # (start, end) of the value without its quotes / braces
         if kind != 'bool':
-            w.add('=')
+            w.add(equals(rng))
             if kind == 'class':
                 q = rng.choice(['"', '"', "'", '', '{'])
                 body = rng.choice(['a', 'a b', 'foo  bar', ' a b ', 'a\tb\nc', '', 'x-1 y_2 z', 'a  ', 'foo\u3000bar baz', 'a\x0bb c', 'p\u2028q', 'x\x85y z', 'a\xa0b', 'é ü\u2003ö', 'a\rb', ' '.join('c%d' % k for k in range(rng.randint(5, 14)))]) if q else rng.choice(['a', 'foo-bar', 'item', 'a-very-long-class-name'])
@@ -98,7 +103,7 @@ def gen_elem(rng, depth, w, recs, parent, xml, max_depth=4, max_children=3):
         # script with a non-JS type is NOT special: its body is ordinary markup
         w.add(' ')
         ns, ne = w.add('type')
-        w.add('=')
+        w.add(equals(rng))
         val = rng.choice(['"text/x-template"', "'text/html'", 'text/ng-template'.replace('/', '-')])
         vs, ve = w.add(val)
         attrs = [{'name': 'type', 'ns': ns, 'ne': ne, 'val': val, 'vs': vs, 've': ve,
@@ -106,7 +111,7 @@ def gen_elem(rng, depth, w, recs, parent, xml, max_depth=4, max_children=3):
     elif kind == 'special' and name == 'script' and rng.random() < 0.5:
         w.add(' ')
         ns, ne = w.add('type')
-        w.add('=')
+        w.add(equals(rng))
         val = rng.choice(['"text/javascript"', "'typescript'", 'javascript', '""'])
         vs, ve = w.add(val)
         attrs = [{'name': 'type', 'ns': ns, 'ne': ne, 'val': val, 'vs': vs, 've': ve,
@@ -117,7 +122,7 @@ def gen_elem(rng, depth, w, recs, parent, xml, max_depth=4, max_children=3):
             # attributes that only LOOK like a type attribute: the element stays special
             w.add(' ')
             ns, ne = w.add(rng.choice(['data-type', ':type', 'src', 'xtype', 'content-type']))
-            w.add('=')
+            w.add(equals(rng))
             val = rng.choice(['"lazy"', '"/app.js?type=min"', '"text/x-template"', "'type=text/html'", 'text/html'.replace('/', '-')])
             vs, ve = w.add(val)
             attrs = list(attrs) + [{'name': w.text()[ns:ne], 'ns': ns, 'ne': ne, 'val': val, 'vs': vs, 've': ve,
@@ -126,7 +131,7 @@ def gen_elem(rng, depth, w, recs, parent, xml, max_depth=4, max_children=3):
             # the element's own closing tag, spelled inside its opening tag: the body starts after the tag, not before
             w.add(' ')
             ns, ne = w.add(rng.choice(['title', 'data-x']))
-            w.add('=')
+            w.add(equals(rng))
             q = rng.choice('"\'')
             val = q + rng.choice(['</%s>', 'a</%s>b', '</%s', '<%s></%s>'.replace('%s', '%s', 1)]).replace('%s', name) + q
             vs, ve = w.add(val)
